@@ -76,9 +76,10 @@ func c05E2EOne(env *fw.Env, i int64) {
 		defer func() { env.Event("delays_injected", undo()) }()
 	}
 	var gate atomic.Bool
-	var closing atomic.Bool
+	var closing, inHold atomic.Bool
 	hold := func() {
 		if gate.CompareAndSwap(true, false) {
+			inHold.Store(true)
 			if waitFor(300*time.Millisecond, func() bool { return closing.Load() }) {
 				env.Event("e2e_connect_during_close", 1)
 			}
@@ -208,7 +209,9 @@ func c05E2EOne(env *fw.Env, i int64) {
 				time.AfterFunc(2*time.Second, c.Close)
 			}
 		}()
-		time.Sleep(time.Duration(r.IntN(3000)) * time.Microsecond)
+		// wait (bounded) until the library's Accept / dial is being held, so Close really races the connect
+		waitFor(time.Second, func() bool { return inHold.Load() })
+		time.Sleep(time.Duration(r.IntN(1500)) * time.Microsecond)
 	case "while-selected":
 		if pc == nil || pc.ReadErr() != nil {
 			if connect() {
